@@ -454,15 +454,28 @@ def _guard(op, av, before):
 
 
 def _last_set(items):
+    """set of characters a match of the item sequence can END with (None if unknown / possibly empty)"""
+    if not items:
+        return None
     op, av = items[-1]
     if op in (sc.MAX_REPEAT, sc.MIN_REPEAT):
         lo, hi, sub = av
         sub = list(sub)
+        if lo == 0:
+            return None                     # may match nothing: the last character is whatever precedes it
         if len(sub) == 1:
             return _single_set(sub[0])
-        return None
+        return _last_set(sub)
     if op == sc.SUBPATTERN:
         return _last_set(list(av[3]))
+    if op == sc.BRANCH:
+        acc = ()
+        for b in av[1]:
+            ls = _last_set(list(b))
+            if ls is None:
+                return None
+            acc = cs_union(acc, ls)
+        return norm(acc)
     return _single_set(items[-1])
 
 
